@@ -287,7 +287,7 @@ where
     Ok(CaseOk { nontrivial: true, digest: digest(&(F::TNAME, n, active, corrupt, &key.gate, key.dest, elem == 0, delta == 1)), labels, sample: cj })
 }
 
-fn attack(env: &Env, src: &mut Src<'_>) -> CaseResult {
+pub fn attack(env: &Env, src: &mut Src<'_>) -> CaseResult {
     match src.below(3) {
         0 => case_for::<Fp31>(env, src),
         1 => case_for::<Fp32BitPrime>(env, src),
